@@ -574,4 +574,18 @@ impl SessionEngine {
         ]);
     }
 """, new=""""""),
+ dict(id='c18-release-unconditional', prop='C18', rule='C18.3', file='crates/ripd/src/local_authority.rs', what='F-C18-release again: Drop removes lock.json / meta.json without looking whose they are',
+      old="""        if !still_ours {
+            return;
+        }
+""", new="""        let _ = still_ours;
+""",
+      also=[dict(old="""        let still_ours = fs::read_to_string(&self.lock_path)
+            .ok()
+            .and_then(|contents| serde_json::from_str::<AuthorityLockRecord>(&contents).ok())
+            .is_some_and(|current| {
+                current.pid == self.record.pid && current.started_at_ms == self.record.started_at_ms
+            });
+""", new="""        let still_ours = true;
+""")]),
 ]
